@@ -156,10 +156,13 @@ CHECKS = {
         text=("Theorems (Props/C12.lean): tightenCol_sound — every in-box integer solution lies within the tightened bounds of "
               "each column (floor division with positive and negative divisors); tightenCol_within — never wider than declared; "
               "crossed_infeasible; tighten_get (the vector is tightenCol column by column); rowBounds_enclose + "
-              "rowBounds_attained — reported row bounds are exactly min and max of row.x - b over the box (explicit witnesses). "
-              "Tie: tighten_column_bounds, row_bounds, n_row_combinations compared with the model; oracle: full enumeration of "
-              "the box incl. the per-row combination counts."),
-        note="n_row_combinations is tied and enumerated but has no theorem yet. At least one row and column; bounds within int16 range; float64 floor division assumed exact on generated magnitudes.",
+              "rowBounds_attained — reported row bounds are exactly min and max of row.x - b over the box (explicit witnesses); "
+              "nRowComb_card — the per-row combination count is the length of a duplicate-free list of exactly the restrictions of "
+              "the in-box points to the row's non-zero columns (Lemmas/Comb.lean); aMinMax_entry, aMin_row_sum, aMax_row_sum — "
+              "A_min / A_max bound every term c*x entry by entry and sum to the quantities reducable_rows / tightening use. "
+              "Tie: tighten_column_bounds, row_bounds, column_bounds, A_min, A_max, n_row_combinations compared with the model; "
+              "oracle: full enumeration of the box incl. the per-row combination counts and the extreme terms."),
+        note="At least one row and column; bounds within int16 range; float64 floor division assumed exact on generated magnitudes.",
         technique="Lean 4 theorem (Int.ediv lemmas, list induction) + differential correspondence + enumeration oracle",
         ref="§4 C12"),
     "C14": dict(
